@@ -153,9 +153,13 @@ def rp1(m, run):
         # domain: all but the last slot: pt[0:dimension - 1] with dimension = homogeneous length, or pt[:-1]
         okdom = pm.domain == ('upto', -1)
         if pm.domain[0] == 'slice' and pm.domain[1] == '0':
-            dims = [n.value for n in walk_no_nested(fi.node) if isinstance(n, ast.Assign) and isinstance(n.targets[0], ast.Name) and n.targets[0].id == 'dimension']
-            hom = bool(dims) and isinstance(dims[0], ast.IfExp) and norm(dims[0].body) == "datadict['dimension'] + 1" and norm(dims[0].test) == "datadict['rational']"
-            okdom = pm.domain[2] in ('dimension - 1',) and hom
+            # upper bound must be (homogeneous length) - 1, the homogeneous length being `dimension + 1 if rational else dimension` of the data dictionary
+            up = pm.domain_node.slice.upper
+            okdom = False
+            if isinstance(up, ast.BinOp) and isinstance(up.op, ast.Sub) and norm(up.right) == '1' and isinstance(up.left, ast.Name):
+                dims = [n.value for n in walk_no_nested(fi.node) if isinstance(n, ast.Assign) and isinstance(n.targets[0], ast.Name) and n.targets[0].id == up.left.id]
+                dd = params_of(fi.node)[1]
+                okdom = len(dims) == 1 and isinstance(dims[0], ast.IfExp) and norm(dims[0].body) == "%s['dimension'] + 1" % dd and norm(dims[0].test) == "%s['rational']" % dd
         # the projected points come from the parent (non-rational) evaluation of the weighted net
         src = norm(pm.loop.iter)
         sup = [n for n in walk_no_nested(fi.node) if isinstance(n, ast.Assign) and norm(n.targets[0]) == src and isinstance(n.value, ast.Call)
@@ -196,8 +200,9 @@ def grid_order(m, run):
     for cname, pdim in (('SurfaceEvaluator', 2), ('VolumeEvaluator', 3)):
         fi = m.cls('evaluators', cname).methods['evaluate']
         sc = ra.scope_of(fi)
+        retn = [r.value.id for r in walk_no_nested(fi.node) if isinstance(r, ast.Return) and isinstance(r.value, ast.Name)]
         app = [c for c in walk_no_nested(fi.node) if isinstance(c, ast.Call) and isinstance(c.func, ast.Attribute) and c.func.attr == 'append'
-               and norm(c.func.value) == 'eval_points']
+               and retn and norm(c.func.value) == retn[0]]
         if len(app) != 1:
             raise AnalysisError('%s: expected one append to eval_points' % fi.key)
         nest = []
